@@ -131,7 +131,7 @@ PROPS = {
             "absorbed_upper": "a.wf → b.wf → isSubset b a → admits (merger a b) x → admits a x",
         },
         "partial": ["the property's last clause (size bounded by the structural variety of the sources) is proved in the form it is quantified: the shape, hence its size, does not depend on the number of repetitions (size_independent_of_repetitions); no closed-form bound in terms of variety is claimed"],
-        "rule": "p_c09: for every history (all sequences of length <= 2 over 19 fixed documents + random histories of 1-5 documents) and every document d of it, d is re-fed k=4 (thorough: 16) times; the shape must be identical from the first repetition on, and the printed shapes are compared with the base shape by witnesses of the reference semantics in both directions; plus subset/merger/p_keeps on reachable (sample, accumulator, sample) triples. Non-trivial = history with a container.",
+        "rule": "p_c09: for every history (all sequences of length <= 2 over 19 fixed documents + random histories of 1-5 documents) and every document d of it, d is re-fed k=4 (thorough: 16) times; the shape must be identical from the first repetition on, and the printed shapes are compared with the base shape by witnesses of the reference semantics in both directions; plus subset/merger/p_keeps on reachable (sample, accumulator, sample) triples. p_cycle: groups of 2-3 documents (all ordered pairs of 25 fixed documents, at top level, below a member and inside a tuple; random groups) are fed 2, 4, 8 and 16 times in turn, and the printed size of the resulting shape must not keep growing (size(4) < size(8) < size(16) is a failure). Non-trivial = history with a container.",
         "assumptions": [],
         "level_text": "converge is a Lean theorem over all histories and all k: re-adding a source keeps the meaning (meaningEq) and the shape is literally stable from the first repetition. It composes samples_accepted (C03) with absorb_stable and absorbed_upper, both proved for all well-formed shapes by induction over merger's arms. Only closes on the code after the D6/D7 repairs. merger, is_subset, from_sources are compared with the real code on the reachable domain each run, and stability/meaning are re-evaluated on the real from_sources.",
         "level_note": "Trusted: Lean kernel; models of merger.rs, subset.rs, shape/mod.rs (differential testing); reference semantics for the meaning comparison (witness search is testing).",
@@ -551,6 +551,14 @@ def direct_oracle(pid, ops, impl):
                 if not okb or frag.hex() != val:
                     fails.append({"op": o, "impl": r, "expected": "range inside the input on character boundaries and fragment == input[range]",
                                   "why": "parse error range/fragment not faithful"})
+    if pid == "C09":
+        for o, r in zip(ops, impl):
+            f = o.split("\t")
+            if f[0] == "p_cycle" and r.startswith("ok "):
+                n2, n4, n8, n16 = [int(x) for x in r.split(" ")[1:5]]
+                if n4 < n8 < n16:
+                    fails.append({"op": o, "impl": r, "expected": "printed size of the shape not growing with the number of times the same group of documents is fed (2, 4, 8, 16 rounds)",
+                                  "why": "the shape keeps growing with repetitions of the same documents: its size is not bounded by the variety of the sources"})
     if pid == "C12":
         import math
         import json as _json
